@@ -39,6 +39,8 @@ WITNESSES = [
     ("F35a", "@ dec\ndef f(): pass\n"),
     ("F35b", "x=1\n@(\ndec)\ndef f(): pass\n"),
     ("F35c", "x=1\n@\\\ndec\nclass C: pass\n"),
+    ("F36", "if y:\n\tx = 1 \\\n\t"),
+    ("F37", "import a\n    # \\\n# c\n    # \\\n\x0c"),
     ("plain", "# 1\nprint(2)\n# 3\n# 4\nprint(5)\nx=[6,\n 7]\n# 8\n"),
     ("lead", "\n\n# c\n\nx=1\n\n\n# d\n\n"),
     ("cont", "x = 1 \\\n\ny = 2\n# c \\\n\nz = 3"),
